@@ -35,6 +35,8 @@ structure Case where
   dump : List (String × Nat) := []
   dumpPending : Bool := true
   oracleHit : Bool := false
+  pre : List (Nat × File × Nat × Nat) := []     -- leftovers present at start: number, file, inode, atime
+  prePid : List (Nat × Nat) := []               -- pid files present at start: inode, atime
 
 structure D where
   st : Stats := {}
@@ -330,6 +332,48 @@ where
       | none => return d
     | _ => return d
 
+/-- The leftovers present at start are not injected into the model state: the model reaches them from the EMPTY queue by an
+accepted event sequence (an injector that stopped at the right point, plus a daemon that preprocessed and died, at the time the
+files are dated), so every replayed run starts from a state that is reachable in the sense of Props/C02. -/
+def synthPre (d : D) : IO D := do
+  let c := d.c
+  let nums := (c.pre.map (·.1)).eraseDups
+  let has (n : Nat) (f : File) := c.pre.any (fun (m, g, _, _) => m == n && g == f)
+  let atOf (n : Nat) := ((c.pre.find? (fun (m, g, _, _) => m == n && g == .mess)).map (fun (_, _, _, a) => a)).getD 0
+  -- (time, number, kind): kind 0 pid only, 1 pid+mess, 2 mess, 3 mess+intd, 4 queued, 5 preprocessed
+  let items : List (Nat × Nat × Nat) :=
+    (nums.map fun n =>
+      let k := if has n .info then 5 else if has n .todo then 4 else if has n .intd then 3
+               else if c.prePid.any (·.1 == n) then 1 else 2
+      (atOf n, n, k)) ++
+    ((c.prePid.filter (fun (i, _) => !nums.contains i)).map fun (i, a) => (a, i, 0))
+  let sorted := items.toArray.qsort (fun a b => a.1 < b.1 || (a.1 == b.1 && a.2.1 < b.2.1)) |>.toList
+  let mut d := d
+  let mut j := 100000
+  for (t, n, k) in sorted do
+    j := j + 1
+    d ← feed d (.tick t) "pre_tick"
+    d ← feed d (.iStart j Nq.Gen.DEATH) "pre_iStart"
+    d ← feed d (.iOpenPid j n) "pre_iOpenPid"
+    if k ≥ 1 then d ← feed d (.iLinkMess j n) "pre_iLinkMess"
+    if k ≥ 2 then d ← feed d (.iUnlinkPid j) "pre_iUnlinkPid"
+    if k ≥ 3 then d ← feed d (.iCreatIntd j n) "pre_iCreatIntd"
+    if k ≥ 4 then d ← feed d (.iLinkTodo j n) "pre_iLinkTodo"
+    else d ← feed d (.iDie j) "pre_iDie"
+    if k == 5 then
+      for (e, w) in [(Ev.dStart, "pre_dStart"), (.dOpenTodo n, "pre_dOpenTodo"), (.dCreat n .info, "pre_dCreat"), (.dCreat n .loc, "pre_dCreat"),
+                     (.dReq true n, "pre_dReq"), (.cUnlink n .intd true, "pre_cUnlink"), (.cUnlink n .todo true, "pre_cUnlink"), (.cDone true, "pre_cDone"),
+                     (.dDie, "pre_dDie")] do
+        d ← feed d e w
+  d ← feed d (.tick 1000000) "pre_tick"
+  -- the model's files must now be exactly the concrete ones
+  match d.c.st with
+  | some s =>
+    for n in nums do
+      if s.fl n != d.c.flags n then d ← disagree d s!"synthesised start state differs from the queue at start for n={n}: model={repr (s.fl n)} concrete={repr (d.c.flags n)}"
+  | none => pure ()
+  return d
+
 def handle (d : D) (line : String) : IO D := do
   let toks := fields line
   match toks with
@@ -341,33 +385,35 @@ def handle (d : D) (line : String) : IO D := do
     if st.samples < 3 then
       IO.println s!"SAMPLE {hl}"
       st := { st with samples := st.samples + 1 }
-    return { st := st, c := { hdr := hl, clock := 1000000, st := (accept {} (.tick 1000000)) } }
+    return { st := st, c := { hdr := hl, clock := 1000000, st := some {} } }
   | "X" :: "pre" :: rest =>
-    -- leftovers in the queue at start: they enter the model as flags (no history), the concrete view as entries
+    -- leftovers in the queue at start: concrete entries now; the model reaches the same state through events at "X start" (synthPre)
     let ino := (kvNat rest "ino").getD 0
     let atm := (kvNat rest "atime").getD 0
     let c := { d.c with atime := (ino, atm) :: d.c.atime.filter (·.1 != ino) }
     match rest with
     | "pid" :: _ =>
       let path := (rest.findSome? (fun t => if t.startsWith "path=" then some (t.drop 5).toString else none)).getD "?"
-      let st' := c.st.map (fun s => { s with pidf := upd s.pidf ino true, atime := upd s.atime ino atm })
-      return { d with c := { c with pids := (path, ino) :: c.pids, st := st' } }
+      return { d with c := { c with pids := (path, ino) :: c.pids, prePid := (ino, atm) :: c.prePid } }
     | _ =>
       let n := (kvNat rest "n").getD 0
       match (rest.findSome? (fun t => if t.startsWith "file=" then kindOf (t.drop 5).toString else none)) with
-      | some f =>
-        let st' := c.st.map (fun s =>
-          let s := s.setF n f true
-          if f == .mess then { s with messIno := upd s.messIno n ino, atime := upd s.atime n atm } else s)
-        return { d with c := { (addEnt c f n (canonical f n) ino) with st := st' } }
+      | some f => return { d with c := { (addEnt c f n (canonical f n) ino) with pre := (n, f, ino, atm) :: c.pre } }
       | none => return d
   | "X" :: "start" :: rest =>
     let d ← compareDump d
-    return { d with c := { d.c with inc := (kvNat rest "incarnation").getD 1 } }
+    let inc := (kvNat rest "incarnation").getD 1
+    let d ← if inc == 1 then synthPre d else pure d
+    return { d with c := { d.c with inc := inc } }
   | "X" :: "crash-applied" :: _ =>
     let d := { d with c := { d.c with live := [], lock := none, elim := [] } }
     feed d .crash "crash"
   | "X" :: "end" :: _ => if d.c.p5daemon then return d else return { d with c := { d.c with dumpPending := true, dump := [] } }
+  | "X" :: "dfs-summary" :: rest =>
+    let cfg := (kvNat rest "cfg").getD 0
+    let st := if (kvNat rest "complete").getD 0 == 1 then d.st.bump s!"dfs_cfg{cfg}_shards_enumerated_completely" else d.st.bump s!"dfs_cfg{cfg}_shards_cut_at_limit"
+    return { d with st := st }
+  | "X" :: "choices" :: _ => return { d with st := d.st.bump "dfs_schedules" }
   | "X" :: "budget-abort" :: _ => return { d with st := d.st.bump "budget_abort" }
   | "X" :: "second-instance-abort" :: _ => return { d with st := d.st.bump "second_instance_abort" }
   | "X" :: "horizon-abort" :: _ => return { d with st := d.st.bump "horizon_abort" }
